@@ -129,6 +129,18 @@ def synth(rng, tier="quick", route=None, **force):
             oss[rng.randrange(len(oss))] = rng.choice(srvs + procs)
         procs = list(dict.fromkeys(procs))
         oss = list(dict.fromkeys(oss))
+    if rng.random() < 0.25:
+        # names are free-form: capitals, digits, dashes
+        style = rng.choice([str.capitalize, str.upper,
+                            lambda s: s + "-2", lambda s: s[:1].upper() +
+                            s[1:] + "Srv"])
+        which = rng.choice(["os", "srv", "proc", "all"])
+        if which in ("os", "all"):
+            oss = [style(x) for x in oss]
+        if which in ("srv", "all"):
+            srvs = [style(x) for x in srvs]
+        if which in ("proc", "all"):
+            procs = [style(x) for x in procs]
     rng.shuffle(oss), rng.shuffle(srvs), rng.shuffle(procs)
     det = force.get("deterministic", False)
     exploits = {}
